@@ -1163,10 +1163,8 @@ class ManifestRecursiveLoader:
             path, verify_manifests=verify_manifests)
         entry_dict = self.get_deduplicated_file_entry_dict_for_update(
             path, verify_manifests=verify_manifests)
-        manifest_stack = []
-        for mpath, mrpath, m in (self._iter_manifests_for_path(path)):
-            manifest_stack.append((mpath, mrpath, m))
-            break
+        # all Manifests governing @path, the most specific one last
+        manifest_stack = list(reversed(self._iter_manifests_for_path(path)))
         directory_ids = {}
 
         it = os.walk(os.path.join(self.root_directory, path),
